@@ -310,6 +310,14 @@ func buildAlphabet() *alphabet {
 	// groups whose ONLY member is a LogValuer that resolves to a group without content
 	add(group("P", lv("pe", group(""))))
 	add(group("Q", lv("qe", group("", &spec{label: "Attr{}", kind: kEmpty}, &spec{label: "Attr{}", kind: kEmpty}))))
+	// zero VALUES under a key are not empty attributes: the zero time.Time, a zero duration, an empty string
+	zt := func(k string) *spec {
+		return leaf(fmt.Sprintf(`Time(%q,time.Time{})`, k), k, func() slog.Value { return slog.TimeValue(time.Time{}) }, str("0001-01-01T00:00:00Z"))
+	}
+	add(zt("zt"))
+	add(group("ZG", zt("at")))
+	add(leaf(`Duration("zd",0)`, "zd", func() slog.Value { return slog.DurationValue(0) }, num("0")))
+	add(group("ZS", leaf(`String("es","")`, "es", func() slog.Value { return slog.StringValue("") }, str(""))))
 	return a
 }
 
